@@ -677,6 +677,7 @@ pub fn run(ctx: &crate::RunCtx) -> (Summary, Vec<Violation>) {
             continue;
         }
         let h = gen_history(ctx.seed, i, thorough);
+        crate::progress::begin(&|| serde_json::to_value(&h).unwrap());
         sum.cases += 1;
         let hh = fnv(&serde_json::to_string(&h).unwrap());
         let derived = h.steps.iter().any(|s| s.derived != "fresh" && !s.derived.starts_with("same"));
